@@ -248,7 +248,14 @@ class MemberOracle(RaftOracle):
                     cur = self._apply_member(cur, d)
             have = frozenset(self._member_idx(h))
             if h.extra.get('joiner'):
-                own_add = any(self.app.decode(norm(e)[0])[0] == 'member' and self.addr_to_idx.get(self.app.decode(norm(e)[0])[2][1]) == h.idx for e in ents) or base > 1
+                own_add = any(self.app.decode(norm(e)[0])[0] == 'member' and self.addr_to_idx.get(self.app.decode(norm(e)[0])[2][1]) == h.idx for e in ents)
+                if not own_add and base > 1:
+                    # its log starts above position 1: either it installed a snapshot that covers its own add entry, or it
+                    # merely compacted its own short log (the operator's member list is then still ahead of its log)
+                    for q in range(2, base):
+                        dq = self.Gdec.get(q)
+                        if dq is not None and dq[0] == 'member' and dq[2][0] == 'add' and self.addr_to_idx.get(dq[2][1]) == h.idx:
+                            own_add = True
                 if not own_add:
                     cur = None
             if cur is not None and have != (cur | frozenset([h.idx])):
